@@ -111,7 +111,7 @@ class C11Spec(explore.Spec):
                         viols.append(Violation(PROP, f"transient-shape|{fmt}", f"{fmt}: node {nid} transient fields have the wrong shape", replay))
                 # loaded nodes are independent objects: putting one restored node to sleep (and withholding a
                 # reply for it) must not give any other restored node transient state
-                sleeper = next((nid for nid, sn in w2.gw.sensors.items() if sn.children and 0 < nid < 255), None)
+                sleeper = next((nid for nid, sn in w2.gw.sensors.items() if isinstance(nid, int) and sn.children and 0 < nid < 255), None)
                 if sleeper is not None and len(w2.gw.sensors) > 1 and cfg["version"] >= "2.0":
                     wake = "22" if cfg["version"] in ("2.0", "2.1") else "32"
                     w2.apply(("rx", f"{sleeper};255;3;0;{wake};7"))
